@@ -55,6 +55,7 @@ communicate through a scoped variable and the identity order executes statements
             "probe.edge_attr_precedes_edge",
             "probe.same_edge_from_two_stanzas",
             "probe.all_orders_fail",
+            "probe.all_orders_rejected",
             "probe.exhaustive_permutations",
             "probe.sampled_permutations",
         ],
@@ -110,11 +111,13 @@ fn groups(r: &mut Rng) -> (Vec<Stanza>, Vec<String>) {
         ));
         if r.chance(1, 2) {
             // the same edges once more from another stanza, plus an equal attribute value
+            // ... or a different attribute on the same edge: both must end up on it
+            let name = if r.chance(1, 2) { "w" } else { "w2" };
             out.push(st(
                 "(assignment left: (identifier) @x right: (identifier) @y)",
                 vec![
                     Stmt::Edge(sc("x", "nd"), sc("y", "nd")),
-                    Stmt::AttrEdge(sc("x", "nd"), sc("y", "nd"), vec![("w".into(), call("source-text", vec![cap("y")]))]),
+                    Stmt::AttrEdge(sc("x", "nd"), sc("y", "nd"), vec![(name.into(), call("source-text", vec![cap("y")]))]),
                 ],
             ));
         }
@@ -155,6 +158,35 @@ fn groups(r: &mut Rng) -> (Vec<Stanza>, Vec<String>) {
                 Stmt::AttrNode(Expr::Var("cn".into()), vec![("callee_node".into(), Expr::Scoped(Box::new(sc("d", "fn")), "nd".into()))]),
             ],
         ));
+    }
+    if r.chance(1, 5) {
+        // near misses of the locality rule: a value derived from a scoped variable in an
+        // eagerly evaluated position.  The loader must reject these in every order; were it
+        // to accept one, forcing the variable while matches are still being collected would
+        // make the outcome depend on the order.
+        // on a node kind with a single instance, so that one order can succeed
+        out.insert(
+            1,
+            st("(module) @d", vec![Stmt::Let(VarRef::Scoped(cap("d"), "tx".into()), call("node-type", vec![cap("d")]))]),
+        );
+        let body = vec![Stmt::Node(VarRef::Local("nm".into())), Stmt::AttrNode(Expr::Var("nm".into()), vec![("seen".into(), Expr::True)])];
+        let eager = match r.below(6) {
+            0 => Stmt::For(
+                "x".into(),
+                Expr::ListComp(Box::new(Expr::Scoped(Box::new(Expr::Var("y".into())), "tx".into())), "y".into(), Box::new(Expr::List(vec![cap("e")]))),
+                body,
+            ),
+            1 => Stmt::Scan(sc("e", "tx"), vec![("[a-z]+".into(), body)]),
+            2 => Stmt::If(vec![gen::IfArm { conds: vec![gen::Cond::Bool(call("eq", vec![sc("e", "tx"), Expr::Str("x".into())]))], body }]),
+            3 => Stmt::For("x".into(), Expr::List(vec![sc("e", "tx")]), body),
+            4 => Stmt::For(
+                "x".into(),
+                Expr::SetComp(Box::new(Expr::Scoped(Box::new(Expr::Var("y".into())), "tx".into())), "y".into(), Box::new(Expr::List(vec![cap("e")]))),
+                body,
+            ),
+            _ => Stmt::Scan(call("format", vec![Expr::Str("{}".into()), sc("e", "tx")]), vec![("[a-z]+".into(), body)]),
+        };
+        out.insert(2, st("(module) @e", vec![eager]));
     }
     (out, inherits)
 }
@@ -204,10 +236,13 @@ pub fn make_case(ctx: &ShardCtx, i: u64) -> Case {
     }
     // spread the number of stanzas: all orders are enumerated only up to five
     let target = *r.pick(&[2usize, 3, 3, 4, 4, 4, 5, 5, 5, 5, 6, 7]);
-    r.shuffle(&mut stanzas);
-    // keep the node-defining stanza so that the rest still communicates through it
-    stanzas.sort_by_key(|s| if stanza_defines_nd(s) { 0 } else { 1 });
-    while stanzas.len() > target.max(2) {
+    // keep the node-defining stanza (and a near-miss pair, if any) so that the rest still
+    // communicates through them; trim the others
+    let protected = if stanzas.iter().any(|s| s.query == "(module) @e") { 3 } else { 1 };
+    let mut tail: Vec<Stanza> = stanzas.split_off(protected.min(stanzas.len()));
+    r.shuffle(&mut tail);
+    stanzas.extend(tail);
+    while stanzas.len() > target.max(2).max(protected) {
         stanzas.pop();
     }
     for i in inherits {
@@ -312,7 +347,20 @@ fn check_case(case: &Case, only: Option<Vec<usize>>) -> (Stats, Option<Found>) {
     let id_out = match run_one(&id_text, &case.source, &case.globs) {
         Ok(o) => o,
         Err(_) => {
-            st.discarded = true;
+            // the loader rejects the identity order: it must reject every other order as well
+            st.identity = "rejected";
+            let (perms, exhaustive) = match only {
+                Some(p) => (vec![p], false),
+                None => permutations(n, &mut Rng::sub(case.hash_seed, "perms")),
+            };
+            st.exhaustive = exhaustive;
+            for p in perms {
+                st.perms += 1;
+                if simrun::load(&case.prog.permuted(&p).render()).is_ok() {
+                    return (st, Some(Found { class: "rejection-depends-on-order", perm: p, detail: "the identity order is rejected by the loader but this order is accepted".into() }));
+                }
+            }
+            st.transcript = 7;
             return (st, None);
         }
     };
@@ -416,7 +464,16 @@ pub fn replay(sc: &J) -> Result<Option<(String, String)>, String> {
     let globs = simrun::globs_from_json(&sc["globals"]);
     let hs = sc["hash_seed"].as_u64().unwrap_or(1);
     entropy::with_hash_seed(hs, move || -> Result<Option<(String, String)>, String> {
-        let a = run_one(&id_text, &source, &globs).map_err(|e| format!("identity order does not load: {}", e))?;
+        let a = match run_one(&id_text, &source, &globs) {
+            Ok(a) => a,
+            Err(_) => {
+                return Ok(if simrun::load(&pm_text).is_ok() {
+                    Some(("rejection-depends-on-order".into(), "the identity order is rejected by the loader but this order is accepted".into()))
+                } else {
+                    None
+                });
+            }
+        };
         let b = match run_one(&pm_text, &source, &globs) {
             Ok(b) => b,
             Err(e) => return Ok(Some(("order-rejected-by-loader".into(), e))),
@@ -521,6 +578,9 @@ pub fn run_shard(ctx: &ShardCtx, rep: &mut Report) {
         rep.add("fault.perm.fired", st.perms);
         rep.count(&format!("stanzas.{}", case.prog.stanzas.len()));
         rep.count(&format!("identity.{}", st.identity));
+        if st.identity == "rejected" {
+            rep.count("probe.all_orders_rejected");
+        }
         if st.identity == "error" {
             rep.count("probe.all_orders_fail");
             rep.count("fault.exec_error.configured");
